@@ -224,6 +224,12 @@ class NumpyProxy:
             return out
         if hasattr(x, '_v') and hasattr(x, 'values'):
             return x.values
+        if _has_sym((x,)):
+            # symbolic elements stand for floats: an ndarray of them *is* already of the requested float type, and
+            # numpy.asarray returns such an array itself (aliasing!); a list / tuple gives a new array
+            if isinstance(x, _np.ndarray):
+                return x
+            return _np.asarray(x, dtype=object)
         return _np.asarray(x, *a, **k)
 
     def array(self, x, *a, **k):
